@@ -70,17 +70,17 @@ PROPS = {
 }
 
 PROPS['C17'] = dict(title='Event logs record exactly the creations and destructions since the last clear',
-                    coq=['props/C17.vo'], tags=[17],
+                    coq=['props/C17.vo'], big=True, tags=[17],
                     streams=[('w1', 'S12', 50, 60), ('w2', 'S12', 25, 60)], configs=['dbg-ev', 'rel'], need=['events', 'create', 'destroy'])
 PROPS['C18'] = dict(title='Generated code is unsafe-free and unsound client programs do not compile',
                     coq=['props/C18.vo'], tags=[18], c18=dict(cases=60),
                     streams=[], configs=['dbg'], need=[])
 PROPS['C19'] = dict(title='Crate features and build profiles change nothing but what they document',
-                    coq=['props/C19.vo'], tags=[1, 2, 3, 4, 5, 6, 7, 8, 9, 10, 12, 13, 14, 17, 19],
+                    coq=['props/C19.vo'], big=True, tags=[1, 2, 3, 4, 5, 6, 7, 8, 9, 10, 12, 13, 14, 17, 19],
                     streams=[('w1', 'S1', 12, 50), ('w1', 'S2', 10, 50), ('w1', 'S7', 12, 50), ('w1', 'S12', 10, 50), ('w1', 'S9', 8, 50), ('w3', 'S2', 10, 40), ('w3', 'S1', 8, 40)],
                     configs=['dbg-ev', 'dbg-wrap', 'rel', 'rel-plain', 'dbg-32'], need=['create'])
 PROPS['C15'] = dict(title='Archetype and component ids follow the discriminant rule and are unique',
-                    coq=['props/C15.vo'], cfgprobe='rule', tags=[15], macro=dict(cases=200, stress=True),
+                    coq=['props/C15.vo'], big=True, cfgprobe='rule', tags=[15], macro=dict(cases=200, stress=True),
                     streams=[('w2', 'H1', 10, 40)], configs=['dbg'], need=['conv'])
 PROPS['C16'] = dict(title='#[cfg]-disabled archetypes, components and query parameters behave as absent',
                     coq=['props/C16.vo'], tags=[16], macro=dict(cases=200, stress=False), cfgprobe='cfg',
